@@ -1343,3 +1343,162 @@ func c08TypeMappingSiblings(w *World, r *Report) {
 		r.fail(rule, key, w.pos(m.fn.Pos()), "the routines that turn a written type into an attribute disagree - a MetaData-typed field and the same type written inline then differ: "+strings.Join(diff, " | "))
 	}
 }
+
+// */length-link-by-kind: the parse phase records the packet's length field for every spelling of a length field.
+//
+// The grammar has two spellings (an attribute in front of the field, a lengthFieldDeclaration), both end in a Field whose Attr is a
+// LengthFieldAttribute, and the place that records it as the packet's length field (Packet.LengthField, from which the target gets
+// its LenAttr and every encoder its measuring code) decides by that kind. A recording that additionally requires a parse-tree node
+// the grammar makes optional - present in one spelling, absent in the other - silently leaves the other spelling unlinked: the
+// placeholder is still written, nothing measures the target, the wire value is 0; the placement diagnostics are skipped with it.
+// Decided: no value that becomes Packet.LengthField is taken on a path dominated by the non-nil edge of a test of a grammar
+// context that may be absent (optional accessor, element of a child list, helper that may return nil).
+func lengthLinkByKind(w *World, r *Report, prop string) {
+	rule := prop + "/length-link-by-kind"
+	ctxs := w.ctxTable()
+	fns := parsePhaseFuncs(w)
+	var mayBeAbsent func(v ssa.Value, depth int, seen map[ssa.Value]bool) string
+	mayBeAbsent = func(v ssa.Value, depth int, seen map[ssa.Value]bool) string {
+		v = stripIdentity(v)
+		if depth > 6 || seen[v] {
+			return ""
+		}
+		seen[v] = true
+		switch x := v.(type) {
+		case *ssa.Const:
+			if x.IsNil() {
+				return "nil"
+			}
+		case *ssa.Phi:
+			for _, e := range x.Edges {
+				if why := mayBeAbsent(e, depth+1, seen); why != "" {
+					return why
+				}
+			}
+		case *ssa.UnOp:
+			if x.Op == token.MUL {
+				if ia, ok := x.X.(*ssa.IndexAddr); ok {
+					if c, ok := stripIdentity(ia.X).(*ssa.Call); ok {
+						if _, ai, ok := w.accessorOf(c, ctxs); ok && ai.Known && strings.HasSuffix(ai.What, "*") {
+							return "an element of " + ai.Ctx + "." + ai.Name + "(), a list that may be empty"
+						}
+					}
+				}
+			}
+		case *ssa.Call:
+			if _, ai, ok := w.accessorOf(x, ctxs); ok {
+				if ai.Known && ai.Optional {
+					if rv := x.Common().Args; len(rv) > 0 || x.Common().IsInvoke() {
+						return ai.Ctx + "." + ai.Name + "(), optional in the grammar"
+					}
+				}
+				if ai.Known && !ai.Optional {
+					// a mandatory child of a node that may itself be absent
+					var recv ssa.Value
+					if x.Common().IsInvoke() {
+						recv = x.Common().Value
+					} else if len(x.Common().Args) > 0 {
+						recv = x.Common().Args[0]
+					}
+					if recv != nil {
+						return mayBeAbsent(recv, depth+1, seen)
+					}
+				}
+				return ""
+			}
+			if f := x.Call.StaticCallee(); f != nil && f.Blocks != nil && (f.Pkg == w.Parser || f.Pkg == w.Model) {
+				why := ""
+				forEachInstr(f, func(_ *ssa.BasicBlock, ins ssa.Instruction) {
+					if ret, ok := ins.(*ssa.Return); ok && why == "" && len(ret.Results) > 0 {
+						if y := mayBeAbsent(ret.Results[0], depth+1, seen); y != "" {
+							why = y + " (returned by " + fnKey(f) + ")"
+						}
+					}
+				})
+				return why
+			}
+		}
+		return ""
+	}
+	type src struct {
+		val ssa.Value
+		blk *ssa.BasicBlock
+	}
+	var sources func(v ssa.Value, at *ssa.BasicBlock, depth int, seen map[ssa.Value]bool) []src
+	sources = func(v ssa.Value, at *ssa.BasicBlock, depth int, seen map[ssa.Value]bool) []src {
+		v = stripIdentity(v)
+		if depth > 8 || seen[v] {
+			return nil
+		}
+		seen[v] = true
+		switch x := v.(type) {
+		case *ssa.Const:
+			return nil
+		case *ssa.Phi:
+			var out []src
+			for i, e := range x.Edges {
+				out = append(out, sources(e, x.Block().Preds[i], depth+1, seen)...)
+			}
+			return out
+		case *ssa.UnOp:
+			if al, ok := x.X.(*ssa.Alloc); ok && x.Op == token.MUL && al.Referrers() != nil {
+				var out []src
+				for _, ref := range *al.Referrers() {
+					if st, ok := ref.(*ssa.Store); ok && st.Addr == ssa.Value(al) {
+						out = append(out, sources(st.Val, st.Block(), depth+1, seen)...)
+					}
+				}
+				return out
+			}
+		}
+		return []src{{v, at}}
+	}
+	n := 0
+	for _, fn := range fns {
+		forEachInstr(fn, func(b *ssa.BasicBlock, ins ssa.Instruction) {
+			st, ok := ins.(*ssa.Store)
+			if !ok {
+				return
+			}
+			fa, ok := st.Addr.(*ssa.FieldAddr)
+			if !ok {
+				return
+			}
+			if tn, f, _, _ := fieldOf(fa); tn != "Packet" || f != "LengthField" {
+				return
+			}
+			n++
+			key := fnKey(fn) + ": the packet's length field is recorded whichever way it is spelled"
+			bad, badPos := "", ""
+			for _, s := range sources(st.Val, b, 0, map[ssa.Value]bool{}) {
+				for _, gb := range s.blk.Parent().Blocks {
+					cond := branchCond(gb)
+					if cond == nil {
+						continue
+					}
+					x, nn, ok := nilTest(cond)
+					if !ok || grammarCtxName(x.Type()) == "" {
+						continue
+					}
+					if gb != s.blk && !edgeDominates(gb, nn, s.blk) {
+						continue
+					}
+					if gb == s.blk {
+						continue
+					}
+					if why := mayBeAbsent(x, 0, map[ssa.Value]bool{}); why != "" && bad == "" {
+						bad, badPos = why, w.instrPos(gb.Instrs[len(gb.Instrs)-1])
+					}
+				}
+			}
+			if bad == "" {
+				r.pass(rule, key, w.instrPos(st), "")
+			} else {
+				r.fail(rule, key, badPos, "the field that becomes Packet.LengthField is taken only where a parse-tree node is present that the grammar allows to be absent ("+bad+"): a length field written in the other spelling is a LengthFieldAttribute all the same, but is never recorded - its target gets no LenAttr, the encoders write the placeholder and never measure, the wire value stays 0; the root-only and duplicate diagnostics are skipped with it")
+			}
+		})
+	}
+	if n == 0 {
+		r.fail(rule, "recording site found", "internal/parser/packet_dsl_parser.go", "no store to Packet.LengthField in the parse phase")
+	}
+}
